@@ -197,7 +197,7 @@ def evidence(pid, P, ctx, results, violations, knownhits, unconfirmed, infra, wa
         'trusted_base': ['z3 4.8.12 / z3 5.1.0 / cvc5 1.0.3', 'go/packages + go/ssa (x/tools v0.36.0)', 'symx encodings of Go spec semantics and intrinsic models (DESIGN.md 2.4)'],
     }
     if level == 'translation_validation':
-        cov['programs'] = len(harn)
+        cov['programs'] = sum(len(r.get('functions') or [1]) for _, _, r in results if not r.get('error'))
         cov['disagreements_checked'] = len(violations) + len(unconfirmed) + len(knownhits)
     if level == 'model_checking':
         cov['states'] = max(paths, 1)
@@ -251,3 +251,16 @@ def c20(ctx):
         tool_job(ctx, 'extract', 'internal/crosscompile', 'crosscompile', [H(ctx, 'C20', 'extract_h.go')], unwind=40,
                  deadline_s=900 if q else 3000, extra=['--stubs', 'archive:%d:%d' % (nl, ne)], replay=c20_replay),
     ]
+
+
+def gen_c02(ctx):
+    def g(d):
+        import subprocess
+        subprocess.check_call(['python3', H(ctx, 'C02', 'gen.py'), d, ctx.tier], stdout=subprocess.DEVNULL)
+    return g
+
+
+@prop('C02', level='translation_validation', title='numeric operators and conversions')
+def c02(ctx):
+    C = _check()
+    return [C.TVJob('ops', gen_c02(ctx), 'tvc02', chunks=16, deadline_s=60 if ctx.quick else 300, prefix='C02.', extra=['--assume-fp-range'])]
